@@ -583,6 +583,19 @@ func (e *Env) loop(pos token.Pos, cond func() *Term, body func(), post func(), a
 	}
 	// back edge is cut here
 	loopAssigned := e.assigned
+	var frameMaps []string
+	frameMem := false
+	if e.frameAuto != nil {
+		frameMaps = heapMapsOf(loopAssigned)
+		frameMem = loopAssigned["Mem"]
+		if ft := e.frameAuto(frameMem, frameMaps); ft != nil {
+			e.assertFrame(ft, lname+".preserve", "automatic frame invariant: only what the modifies clause allows is written", e.w.pos(pos))
+			sc := e.cur
+			e.cur = pre
+			e.assertFrame(e.frameAuto(frameMem, frameMaps), lname+".entry", "automatic frame invariant: only what the modifies clause allows is written", e.w.pos(pos))
+			e.cur = sc
+		}
+	}
 	e.assigned = savedAssigned
 	for k := range loopAssigned {
 		e.assigned[k] = true
@@ -646,6 +659,11 @@ func (e *Env) loop(pos token.Pos, cond func() *Term, body func(), post func(), a
 	if e.ownAuto != nil && e.inline == 0 {
 		for _, t := range e.ownAuto() {
 			e.assume(t)
+		}
+	}
+	if e.frameAuto != nil {
+		if ft := e.frameAuto(frameMem, frameMaps); ft != nil {
+			e.assume(Implies(e.frameFlag(), ft))
 		}
 	}
 	e.cur = saveCur
